@@ -24,6 +24,11 @@ def encodings(rng):
         "1-d arrays": lambda c, t: tuple(np.array([v]) for v in pick([4, 9, 11], c)),
         "lists": lambda c, t: tuple([v] for v in pick(["x", "y"], c)),
         "negative ints": lambda c, t: pick([-1, -5, 0], c),
+        # distinct labels that a numeric coercion would identify (or, for "nan", separate from itself)
+        "zero-padded codes": lambda c, t: pick(["1", "01", "001", "1.0", "1e0"], c),
+        "64-bit ids": lambda c, t: pick([2 ** 53, 2 ** 53 + 1, 2 ** 53 + 2, 2 ** 62 + 1, 2 ** 62 + 3], c),
+        "words incl. nan / inf": lambda c, t: pick(["nan", "inf", "cat", "NaN"], c),
+        "0 / -0 / False as different classes' stand-ins": lambda c, t: pick(["0", "-0", "0.0", "+0"], c),
         # labels whose representation differs in length / type from the first one seen
         "strings of different lengths": lambda c, t: ("1", "1") if t == 0 else pick(["1", "10", "11", "cat", "catalogue"], c),
         "int first, floats later": lambda c, t: (1, 1) if t == 0 else pick([1, 1.25, 1.75, 2.5], c),
